@@ -62,7 +62,7 @@ def value_signature(out, rec):
     else:
         got, want = rec["got"], rec["want"]
     rel = "short" if want.startswith(got) else "long" if got.startswith(want) else "wrong bytes"
-    if rel == "short" and out["status_replies_to_reads"] > 0:
+    if rel == "short" and out["status_replies_to_reads"] > 0 and "EOFError" in out.get("saved_exceptions_raised", []):
         return V_STATUS
     if rel == "short" and out["short_replies_inside_file"] > 0:
         return "short result: a short server read inside the requested range is not completed"
